@@ -188,8 +188,7 @@ func (p *Parser) parseGroupedExpression() Expression {
 func (p *Parser) parseGroupedCondition() Expression {
 	exp := p.parseGroupedExpression()
 
-	switch exp.(type) {
-	case *Identifier, *IndexExpression:
+	if isComparisonOperand(exp) {
 		p.errors = append(p.errors, fmt.Sprintf("Syntax error; parentheses must enclose a condition, got the operand %s", exp.String()))
 
 		return nil
